@@ -232,6 +232,31 @@ fn gen_label(rng: &mut Rng, max: usize) -> Vec<u8> {
 /// Builds a message-like buffer containing several names, some of them
 /// compressed against earlier ones, then optionally damages it.
 pub fn gen_structured(rng: &mut Rng) -> (Vec<u8>, Vec<usize>) {
+    if rng.chance(1, 40) {
+        // a long chain of bare pointers, each to the one before (RFC 1035 puts no bound on the
+        // number of pointers, only that each points strictly backwards), ending in a short name;
+        // sometimes every few links carry a label of their own
+        let mut buf: Vec<u8> = rng.bytes_below(4);
+        let mut starts = Vec::new();
+        let mut prev = buf.len();
+        if rng.bool() {
+            buf.extend_from_slice(&[3, b'w', b'w', b'w']);
+        }
+        buf.push(0);
+        let links = *rng.pick(&[100usize, 126, 127, 128, 129, 130, 200, 280]);
+        for i in 0..links {
+            let here = buf.len();
+            if rng.chance(1, 16) && i + 130 < links {
+                buf.extend_from_slice(&[1, b'a' + (i % 26) as u8]);
+            }
+            buf.push(0xc0 | ((prev >> 8) as u8 & 0x3f));
+            buf.push(prev as u8);
+            prev = here;
+            starts.push(here);
+        }
+        let keep: Vec<usize> = starts.iter().rev().take(3).cloned().collect();
+        return (buf, keep);
+    }
     let mut buf: Vec<u8> = rng.bytes_below(14);
     let mut label_starts: Vec<usize> = Vec::new(); // offsets of labels usable as pointer targets
     let mut name_starts: Vec<usize> = Vec::new();
